@@ -168,6 +168,13 @@ def op_new_node(w, a, b, c, d):
         g = C(w, d >> 2)
     nm = name_from(w, c >> 5)
     w.last_new = None
+    # wrong-typed arguments (rejected calls of the TypeError class): something that is not a Value planted among the
+    # inputs, or something that is not a Graph / Function given as the owner
+    if (b >> 2) % 9 == 4 and ins:
+        ins[(b >> 6) % len(ins)] = ["oops", 3, w.node(b >> 8)][(b >> 14) % 3]
+    if (b >> 16) % 11 == 5:
+        base = w.graph(b >> 20)
+        g = [ir.GraphView(list(base.inputs), list(base.outputs), nodes=list(base)) if base is not None else "g", "not a graph"][(b >> 23) % 2]
     n = ir.Node("" if c % 7 else "custom", OPTYPES[c % len(OPTYPES)], ins, num_outputs=1 + (c >> 3) % 3, name=nm, graph=g)
     w.last_new = (n, nm)
     w.reg(n)
@@ -192,6 +199,11 @@ def op_new_node_with_outputs(w, a, b, c, d):
     outs = [o for o in outs if o is not None]
     ins = [w.value(c)] if c % 2 else []
     g = C(w, d >> 2) if (d >> 1) % 3 == 0 else None
+    if (b >> 1) % 7 == 3:
+        base = w.graph(b >> 5)
+        g = [ir.GraphView(list(base.inputs), list(base.outputs), nodes=list(base)) if base is not None else "g", "not a graph"][(b >> 12) % 2]
+    if (b >> 14) % 9 == 4 and ins:
+        ins = ["oops"]
     n = ir.Node("", OPTYPES[c % len(OPTYPES)], ins, outputs=outs, graph=g, name=name_from(w, c >> 4))
     w.reg(n)
     return w.ref(n)
@@ -757,7 +769,11 @@ def op_value_attrs(w, a, b, c, d):
     elif k == 2:
         v.shape = ir.Shape([c % 4, "m"]) if c % 3 else None
     elif k == 3:
-        v.const_value = small_tensor(w, c, v.name) if c % 3 else None
+        if c % 4 == 1 and w.tensors:
+            # tied weights: a tensor object that is (possibly) already the constant of another value
+            v.const_value = w.tensors[(c // 4) % len(w.tensors)]
+        else:
+            v.const_value = small_tensor(w, c, v.name) if c % 3 else None
     elif k == 4:
         v.doc_string = f"doc{c % 3}"
     elif k == 5:
@@ -850,8 +866,25 @@ def op_rename_values(w, a, b, c, d):
     vs = [v for v in vs if v is not None]
     if not vs:
         return None
-    mode = d % 5
-    if mode == 0 and len(vs) >= 2:
+    mode = d % 6
+    if mode == 5:
+        # directed: values backed by tensors (two of them by ONE tensor object when there is such a pair), each given a
+        # different fresh name, and last a value whose tensor rejects the name it is asked to take
+        with_t = [v for v in w.values if v.const_value is not None]
+        by_t: dict = {}
+        for v in with_t:
+            by_t.setdefault(id(v.const_value), []).append(v)
+        pairs = [g for g in by_t.values() if len(g) >= 2]
+        first = list(pairs[a % len(pairs)][:2]) if pairs else with_t[a % len(with_t) :][:2] if with_t else []
+        picky = [v for v in with_t if isinstance(v.const_value, (PickyTensor, ir.serde.TensorProtoTensor)) and all(v is not x for x in first)]
+        vs = first + ([picky[b % len(picky)]] if picky and (d // 6) % 4 else [])
+        if not vs:
+            return None
+        names = [w.fresh_name("rn") for _ in vs]
+        last = vs[-1].const_value
+        if len(vs) > len(first):
+            names[-1] = "node_rejected" if isinstance(last, PickyTensor) else REJECTED_TENSOR_NAME
+    elif mode == 0 and len(vs) >= 2:
         names = [v.name or "r" for v in vs]
         names = names[1:] + names[:1]  # rotation (swap / cycle)
     elif mode == 1:
@@ -928,7 +961,7 @@ WEIGHTS = {
     "replace_input": 7, "resize_inputs": 3, "resize_outputs": 3, "rauw": 4, "conv_rauw": 3, "replace_nodes_and_values": 2,
     "io_append": 4, "io_extend": 4, "io_insert": 4, "io_pop": 3, "io_remove": 3, "io_clear": 1, "io_setitem": 4, "io_setslice": 4, "io_delitem": 4, "io_reverse": 1, "io_iadd": 1,
     "init_setitem": 4, "init_add": 3, "init_register": 2, "init_delitem": 3, "init_pop": 2, "init_clear": 1, "init_update": 3, "init_setdefault": 2,
-    "value_name": 5, "value_attrs": 4, "node_attrs": 3, "rename_values": 4, "attr_graph": 2,
+    "value_name": 5, "value_attrs": 4, "node_attrs": 3, "rename_values": 6, "attr_graph": 2,
     "io_listapi": 4, "init_dictapi": 4, "merge_shapes": 2,
 }  # fmt: skip
 
